@@ -322,9 +322,9 @@ def case_convolve_values(ctx, nsx, nsw, mode, two_d, int_signal=False):
         x = arrays.mk(xs, tag=np.dtype(float))
     w = arrays.mk(ws, tag=np.dtype(float))
     del _conv_trace[:]
-    b_x, b_w = purity.snap(x.view(arrays.SymArray)), purity.snap(w)
     out = ctx.call("convolve", f.convolve, x, w, mode=mode)
-    purity.oblige_untouched(ctx, "convolve_leaves_signal_and_kernel_untouched", [x.view(arrays.SymArray), w], [b_x, b_w])
+    again = ctx.call("convolve", f.convolve, x, w, mode=mode)
+    purity.oblige_same_result(ctx, "second_identical_call_gives_the_same_result", np.asarray(arrays._plain(out), dtype=object), np.asarray(arrays._plain(again), dtype=object))
     tr = _conv_trace[-1]
     ctx.oblige("irfft_length_equals_padded_size", int(tr["P"]) == int(tr["n_in"]), detail={"padded": int(tr["n_in"]), "irfft_len": int(tr["P"])})
     rows = [xs, xs2] if two_d else [xs]
